@@ -42,8 +42,11 @@ def gen_project(rng, stream="structured", n_tasks=None, facilities=None, fs_only
                            Fraction(3), Fraction(5, 2), Fraction(4), Fraction(6)])
         if rng.random() < 0.04:
             work = work + Fraction(1, 2 ** 30)          # a hair more than the grid: finishing is a tolerance test
-        prog = rng.choice([Fraction(0)] * 8 + [Fraction(1, 4), Fraction(1, 2), Fraction(1)])
+        prog = rng.choice([Fraction(0)] * 16 + [Fraction(1, 4), Fraction(1, 2), Fraction(1, 4), Fraction(1, 2), Fraction(1), Fraction(1),
+                           Fraction(7, 8), Fraction(15, 16), 1 - Fraction(1, 2 ** 30)])   # "already complete" is a tolerance test too
         auto = rng.random() < (0.12 if stream != "contention" else 0.0)
+        if prog.denominator > 16 and work.denominator > 8:
+            work = Fraction(round(work))          # not both off the grid: their product must stay exact in binary64
         t = {"name": rng.randrange(n_names), "work": qs(work), "progress": qs(prog), "auto": auto,
              "rate": qs(rng.choice([Fraction(1), Fraction(1), Fraction(1, 2), Fraction(2), Fraction(3, 8)])),
              "need_fac": False, "comp": None, "teams": [], "wps": [], "fixw": None, "fixf": None,
@@ -192,6 +195,7 @@ def gen_project(rng, stream="structured", n_tasks=None, facilities=None, fs_only
             wps[i]["parent"] = rng.randrange(i)
     case = {"tasks": tasks, "edges": edges, "comps": comps, "teams": teams, "wps": wps, "unit": 60,
             "int_deps": rng.random() < 0.12, "same_ids": rng.random() < 0.1,
+            "adopt_ids": rng.random() < 0.12,        # workers / facilities created without team_id / workplace_id (the container adopts them)
             "rank": rng.sample(range(8), 8)[:nt] if nt <= 8 else None,
             "crank": rng.sample(range(8), 8)[:nc] if nc <= 8 else None}
     return case
